@@ -55,6 +55,15 @@ func c19File(c c19Case, a c19Action, n int) ([]byte, []byte) {
 			sts = append(sts, refStanza(p, hx.RecSpec{Kind: "x25519", Idx: 3}, fk, uint64(n*10+i))...)
 		case "other":
 			sts = append(sts, refStanza(p, hx.RecSpec{Kind: other, Idx: 3}, fk, uint64(n*10+i))...)
+		case "Acase":
+			// a stanza for C whose tag differs from A's tag only in letter case
+			st := refStanza(p, c19Spec(c.Type, "C"), fk, uint64(n*10+i))[0]
+			a := refStanza(p, c19Spec(c.Type, "A"), fk, uint64(n*10+i))[0]
+			st.Args[0] = swapCase(a.Args[0])
+			if st.Args[0] == a.Args[0] {
+				st.Args[0] = "AAAAAA"
+			}
+			sts = append(sts, st)
 		case "noargs":
 			t := "ssh-ed25519"
 			if c.Type == "rsa" {
@@ -213,11 +222,11 @@ func c19Gen(t *rapid.T) c19Case {
 		case 2:
 			a.Stanzas = []string{"B"}
 		case 3:
-			a.Stanzas = []string{rapid.SampledFrom([]string{"C", "X", "other"}).Draw(t, "foreign")}
+			a.Stanzas = []string{rapid.SampledFrom([]string{"C", "X", "other", "Acase"}).Draw(t, "foreign")}
 		default:
 			m := rapid.IntRange(1, 4).Draw(t, "nst")
 			for j := 0; j < m; j++ {
-				a.Stanzas = append(a.Stanzas, rapid.SampledFrom([]string{"A", "B", "C", "X", "other", "noargs"}).Draw(t, "st"))
+				a.Stanzas = append(a.Stanzas, rapid.SampledFrom([]string{"A", "B", "C", "X", "other", "noargs", "Acase"}).Draw(t, "st"))
 			}
 		}
 		a.Answer = rapid.SampledFrom([]string{"right", "right", "wrong", "error"}).Draw(t, "answer")
@@ -233,7 +242,7 @@ func TestC19(t *testing.T) {
 	pbt.Regress(s, "histories", check)
 	// exhaustive: all two-action histories over {A, B, C, [C A], [X B A]} x {right, wrong} for both configurations (ed25519)
 	pbt.Each(s, "histories-exhaustive", func(yield func(c19Case)) {
-		files := [][]string{{"A"}, {"B"}, {"C"}, {"C", "A"}, {"X", "B", "A"}}
+		files := [][]string{{"A"}, {"B"}, {"C"}, {"C", "A"}, {"X", "B", "A"}, {"A", "B"}, {"Acase"}}
 		n := 0
 		for _, mm := range []bool{false, true} {
 			for _, f1 := range files {
@@ -249,7 +258,7 @@ func TestC19(t *testing.T) {
 				}
 			}
 		}
-		s.St.Exhaust("all two-call histories over 5 files x {right, wrong passphrase}, matched and mismatched key file (ssh-ed25519)", int64(n))
+		s.St.Exhaust("all two-call histories over 7 files x {right, wrong passphrase}, matched and mismatched key file (ssh-ed25519)", int64(n))
 	}, check)
 	pbt.Rapid(s, "histories", s.N(60, 400), c19Gen, check)
 }
